@@ -369,7 +369,9 @@ def second_spec():
     base = T.default_spec().layout
     traps = base.static_traps["traps"].shift(100.0, -50.0).scale(2.0, 0.5)
     left = traps.get_view([0, 2], [0, 1, 2])
-    return ArchSpec(layout=Layout({"traps": traps, "left": left}, {"traps"}, {"traps"}, {"traps"}))
+    d = T.default_spec()
+    return ArchSpec(layout=Layout({"traps": traps, "left": left}, {"traps"}, {"traps"}, {"traps"}),
+                    int_constants=dict(d.int_constants), float_constants=dict(d.float_constants))
 
 
 def run(ctx):
@@ -407,6 +409,12 @@ def run(ctx):
             if res[k] != m[k]:
                 ctx.disagree(case, {k: res[k][:300]}, {k: m[k][:300]}, f"route {k} vs model")
         # ---- the property itself, on the real routes ---------------------------------
+        # "when the kernel itself fails no route returns a path": whether the kernel fails is read off the reference AOD
+        # semantics of its operation sequence (the Lean tracer model, proved equal to the reference in C01), not off the tracer
+        if m["spec"] == "err":
+            for k in ("spec", "main", "constprop"):
+                if res[k].startswith("ok"):
+                    ctx.fail(case, f"the kernel fails on these arguments (reference AOD semantics), yet route {k} returns a path: {res[k][:200]}")
         runtime = [res["spec"], res["main"]]
         paths = [r for r in runtime + [res["constprop"]] if r.startswith("ok")]
         if len(set(paths)) > 1:
